@@ -7,6 +7,188 @@ def stmts(fn_body):
     return [ast.unparse(s).strip() for s in fn_body]
 
 
+FRESH_CTORS = ('dict', 'list', 'set', 'OrderedDict', 'tuple')
+MUTATORS = ('append', 'add', 'insert', 'extend', 'update', 'setdefault', '__setitem__', 'appendleft')
+
+
+def _functions(tree):
+    """every function of a module with its qualified name (methods and nested functions included)"""
+    out = []
+
+    def walk(body, prefix):
+        for n in body:
+            if isinstance(n, (ast.FunctionDef, ast.AsyncFunctionDef)):
+                out.append((prefix + n.name, n))
+                walk(n.body, prefix + n.name + '.')
+            elif isinstance(n, ast.ClassDef):
+                walk(n.body, prefix + n.name + '.')
+    walk(tree.body, '')
+    return out
+
+
+def _own_nodes(fn):
+    """the nodes of a function's body, nested function / class definitions excluded (lambdas included)"""
+    stack = list(fn.body)
+    while stack:
+        n = stack.pop()
+        yield n
+        for c in ast.iter_child_nodes(n):
+            if not isinstance(c, (ast.FunctionDef, ast.AsyncFunctionDef, ast.ClassDef)):
+                stack.append(c)
+
+
+def _is_gh_attr(e):
+    return isinstance(e, ast.Attribute) and e.attr == 'get_handler'
+
+
+def handler_stores(tree, skip=('TargetRegistry.get_handler',)):
+    """Every statement that puts a handler obtained from `get_handler` somewhere that outlives the call: an
+    attribute (`x.a = h`), an item of a container that was not created by this call (`d[k] = h`,
+    `d.setdefault(k, h)`, `l.append(h)` …), a global.  A small flow analysis per function: names bound to
+    `<x>.get_handler` (and parameters that receive such a name at a call site of the module) are *lookups*;
+    a value is *a handler* when it is the result of calling a lookup, a name bound to such a value, or a
+    display / call / lambda containing one (calling a handler yields a child of the target, not a handler).
+    The memo of `get_handler` itself (`TargetRegistry.get_handler`) is the one modelled and is skipped."""
+    funcs = _functions(tree)
+    by_short = {}
+    for q, fn in funcs:
+        by_short.setdefault(q.rsplit('.', 1)[-1], []).append(fn)
+    lookup_params = {}                       # id(fn) -> parameter names that receive a lookup function
+    for _ in range(3):                       # lookups handed down through up to three calls
+        for q, fn in funcs:
+            lk = _lookup_names(fn, lookup_params.get(id(fn), set()))
+            for n in _own_nodes(fn):
+                if not isinstance(n, ast.Call):
+                    continue
+                callee = n.func.id if isinstance(n.func, ast.Name) else \
+                    (n.func.attr if isinstance(n.func, ast.Attribute) else None)
+                for tgt in by_short.get(callee, []):
+                    params = [a.arg for a in tgt.args.posonlyargs + tgt.args.args]
+                    if params and params[0] in ('self', 'cls') and isinstance(n.func, ast.Attribute):
+                        params = params[1:]
+                    for i, a in enumerate(n.args):
+                        if i < len(params) and (_is_gh_attr(a) or (isinstance(a, ast.Name) and a.id in lk)):
+                            lookup_params.setdefault(id(tgt), set()).add(params[i])
+                    for kw in n.keywords:
+                        if kw.arg and (_is_gh_attr(kw.value) or (isinstance(kw.value, ast.Name) and kw.value.id in lk)):
+                            lookup_params.setdefault(id(tgt), set()).add(kw.arg)
+    out = []
+    for q, fn in funcs:
+        if q in skip:
+            continue
+        lk = _lookup_names(fn, lookup_params.get(id(fn), set()))
+        out.extend('%s: %s' % (q, st) for st in _stores_in(fn, lk))
+    return sorted(set(out))
+
+
+def _lookup_names(fn, seed):
+    lk = set(seed)
+    for _ in range(3):
+        for n in _own_nodes(fn):
+            if isinstance(n, ast.Assign) and (_is_gh_attr(n.value) or (isinstance(n.value, ast.Name) and n.value.id in lk)):
+                for t in n.targets:
+                    if isinstance(t, ast.Name):
+                        lk.add(t.id)
+    return lk
+
+
+def _stores_in(fn, lk):
+    tainted, fresh = set(), set()
+    declared_global = set()
+    for n in _own_nodes(fn):
+        if isinstance(n, (ast.Global, ast.Nonlocal)):
+            declared_global.update(n.names)
+
+    def is_lookup_call(e):
+        return isinstance(e, ast.Call) and (_is_gh_attr(e.func) or (isinstance(e.func, ast.Name) and e.func.id in lk))
+
+    def taint(e):
+        if e is None:
+            return False
+        if isinstance(e, ast.Name):
+            return e.id in tainted
+        if is_lookup_call(e):
+            return True
+        if isinstance(e, ast.Call):
+            if isinstance(e.func, ast.Name) and e.func.id in tainted:
+                return False                   # the handler is called: its result is not a handler
+            return any(taint(a) for a in e.args) or any(taint(k.value) for k in e.keywords) or \
+                (isinstance(e.func, ast.Attribute) and taint(e.func.value) and e.func.attr in ('copy', 'get', 'pop', 'items', 'values'))
+        if isinstance(e, ast.Lambda):
+            return any(isinstance(x, ast.Name) and x.id in tainted for x in ast.walk(e.body)) or \
+                any(is_lookup_call(x) for x in ast.walk(e.body))
+        if isinstance(e, (ast.Attribute, ast.Subscript)):
+            return taint(e.value)
+        if isinstance(e, ast.Compare):
+            return False
+        return any(taint(c) for c in ast.iter_child_nodes(e) if isinstance(c, ast.expr))
+
+    def is_fresh(e):
+        return isinstance(e, (ast.Dict, ast.List, ast.Set, ast.Tuple, ast.ListComp, ast.DictComp, ast.SetComp)) or \
+            (isinstance(e, ast.Call) and isinstance(e.func, ast.Name) and e.func.id in FRESH_CTORS)
+
+    def base_name(t):
+        while isinstance(t, (ast.Subscript, ast.Attribute)):
+            t = t.value
+        return t.id if isinstance(t, ast.Name) else None
+
+    nodes = [n for n in _own_nodes(fn)]
+    stmts_ = sorted([n for n in nodes if isinstance(n, ast.stmt)], key=lambda n: (n.lineno, n.col_offset))
+    found = []
+    for _ in range(3):                        # to a fixed point over loops
+        found = []
+        for n in stmts_:
+            if isinstance(n, (ast.Assign, ast.AnnAssign, ast.AugAssign)):
+                value = n.value
+                targets = n.targets if isinstance(n, ast.Assign) else [n.target]
+                tv = taint(value)
+                for t in targets:
+                    names = [t] if not isinstance(t, (ast.Tuple, ast.List)) else list(t.elts)
+                    for x in names:
+                        if isinstance(x, ast.Name):
+                            if tv:
+                                tainted.add(x.id)
+                                if x.id in declared_global:
+                                    found.append(ast.unparse(n))
+                            if is_fresh(value) and not tv:
+                                fresh.add(x.id)
+                            elif not is_fresh(value):
+                                fresh.discard(x.id)
+                        elif isinstance(x, ast.Attribute) and tv:
+                            found.append(ast.unparse(n))
+                        elif isinstance(x, ast.Subscript) and tv:
+                            b = base_name(x)
+                            if isinstance(x.value, ast.Name) and b in fresh:
+                                tainted.add(b)      # a container of this call now holds a handler
+                            else:
+                                found.append(ast.unparse(n))
+            for e in ast.walk(n) if not isinstance(n, (ast.FunctionDef, ast.ClassDef)) else []:
+                if isinstance(e, ast.Call) and isinstance(e.func, ast.Attribute) and e.func.attr in MUTATORS \
+                        and (any(taint(a) for a in e.args) or any(taint(k.value) for k in e.keywords)):
+                    b = base_name(e.func.value)
+                    if isinstance(e.func.value, ast.Name) and b in fresh:
+                        tainted.add(b)
+                    else:
+                        found.append(ast.unparse(e))
+                if isinstance(e, ast.Call) and isinstance(e.func, ast.Name) and e.func.id == 'setattr' \
+                        and len(e.args) == 3 and taint(e.args[2]):
+                    found.append(ast.unparse(e))
+    return [' '.join(x.split()) for x in found]
+
+
+def memo_reset(fn):
+    """how a registering method resets the handler memo: the last *unconditional* statement of its body that
+    assigns a new dict to `self._type_cache` or clears it ('' when there is none)"""
+    form = ''
+    for st in fn.body:
+        src = ' '.join(ast.unparse(st).split())
+        if src in ('self._type_cache = {}', 'self._type_cache = dict()', 'self._type_cache.clear()'):
+            form = src
+        elif '_type_cache' in src and not isinstance(st, (ast.FunctionDef, ast.ClassDef)):
+            form = 'other: ' + src[:80]
+    return form
+
+
 def extract(ctx):
     P = ctx['P']
     tree = ctx['src_tree']('core.py')
@@ -55,8 +237,25 @@ def extract(ctx):
         if fn is None:
             P.add('TargetRegistry.%s not found' % name)
             continue
-        src = [ast.unparse(s) for s in ast.walk(fn) if isinstance(s, ast.Assign)]
-        resets.append((name, 'self._type_cache = {}' in src))
+        resets.append((name, memo_reset(fn)))
+    # handlers obtained from get_handler and kept anywhere but in the memo that register() resets
+    stored = []
+    for mod in ('core.py', 'grouping.py', 'mutation.py', 'streaming.py', 'reduction.py', 'matching.py'):
+        try:
+            mt = tree if mod == 'core.py' else ctx['src_tree'](mod)
+        except OSError:
+            continue
+        stored.extend('%s %s' % (mod, x) for x in handler_stores(mt))
+    # every assignment / mutation of `_type_cache` outside __init__ / get_handler / register / register_op
+    memo_writers = []
+    for q, fn in _functions(tree):
+        if q in ('TargetRegistry.__init__', 'TargetRegistry.get_handler', 'TargetRegistry.register',
+                 'TargetRegistry.register_op'):
+            continue
+        for n in _own_nodes(fn):
+            if isinstance(n, ast.Attribute) and n.attr == '_type_cache':
+                memo_writers.append(q)
+    memo_writers = sorted(set(memo_writers))
     # the memo key is built from the exact type of the object
     memo_key_type = ''
     if gh is not None:
@@ -84,7 +283,9 @@ def extract(ctx):
               ('pathCacheInit', 'String', cache_init),
               ('createUsesPathStar', 'Bool', create_uses_star),
               ('getHandlerShape', 'List String', gh_shape),
-              ('memoResetBy', 'List (String × Bool)', resets),
+              ('memoResetBy', 'List (String × String)', resets),
+              ('handlerStoredOutsideMemo', 'List String', stored),
+              ('memoTouchedOutsideRegistry', 'List String', memo_writers),
               ('memoKeyType', 'String', memo_key_type),
               ('scopeVarsInitShape', 'List String', sv_shape),
               ('varsGlomitShape', 'List String', vg_shape)])]
